@@ -53,8 +53,17 @@ def pair_kind(rng):
 
 class Check(PropertyCheck):
     id = 'C08'
-    lean_targets = ['RegionsVerif.Props.C08']
-    namespaces = ['RegionsVerif.Props.C08']
+    lean_targets = ['RegionsVerif.Props.C08', 'RegionsVerif.Bridge.CompoundGlue']
+    namespaces = ['RegionsVerif.Props.C08', 'RegionsVerif.Bridge.CompoundGlue']
+
+    def translate(self):
+        # tie T: regenerate Gen/CompoundGlue.lean (CompoundPixelRegion.contains, the annulus structure) from the current source
+        import importlib.util, os
+        from .common import VERIF
+        spec = importlib.util.spec_from_file_location('compoundglue', os.path.join(VERIF, 'tools', 'compoundglue.py'))
+        mod = importlib.util.module_from_spec(spec)
+        spec.loader.exec_module(mod)
+        return mod.main()
     rule = ('pairs of maskable pixel regions (overlapping, nested, disjoint, touching) and nested expressions to depth 3 built with '
             '&, |, ^ x include flags on operands and compound x query positions scaled to the operands; all three annulus classes. '
             'Non-trivial = the operands\' answers differ on at least one query point / the union mask has both 0 and 1.')
